@@ -22,6 +22,12 @@ fn main() {
         std::process::exit(2);
     }
     util::silence_panics();
+    // per-run time budget (runs take milliseconds, except the long-stream and concurrent ones)
+    util::start_watchdog(match args[1].as_str() {
+        "footprint" => 1500,
+        "nfs" | "atomic" => 300,
+        _ => 120,
+    });
     match args[1].as_str() {
         "deque" => deque::drive_deque(&args[2], &args[3]),
         "codec" => codec::drive_codec(&args[2], &args[3]),
